@@ -256,7 +256,10 @@ CHECKS["C03"] = dict(
          "accuracy, 1D vs 2D converging with nt, axial force closed form, stiffness*h/area = E; and by an exact certificate for "
          "the 1D abstraction: a Gallina model of the axisymmetric finite-element equations (weak form, strains, Hooke, inner-node "
          "pressure, axial force; scikit-fem's quadrature points passed as the rationals their floats are) is evaluated at the "
-         "stored displacements: zero residual, stored stresses and axial force reproduced.",
+         "stored displacements: zero residual, stored stresses and axial force reproduced; and the same for the 2D abstraction on "
+         "coarse meshes with a Gallina model of the bilinear quadrilateral (isoparametric map, 2x2 Gauss rule, Hooke, assembled "
+         "nodal forces against the polygon pressure load), which is proved consistent: derivatives sum to zero and reproduce the "
+         "coordinates, patch test, point forces balance.",
     note="partial: convergence of the finite-element solution to the closed form and agreement of the abstractions are "
          "checked on sampled problems (mesh-accuracy bounds calibrated: 1.0*(dr/t)^2 in 1D, 1.5*((dr/t)^2 + (pi/nt)^2 r/t) in 2D), "
          "not proved; scikit-fem assembly and NEML are trusted; odd nt is outside the property.",
